@@ -141,13 +141,16 @@ func (p *Prop[S]) Check(t *testing.T) {
 			}
 		}
 		caseStalled.Store(false)
+		caseStarted.Store(time.Now().UnixNano())
 		res := p.Run(s)
+		caseStarted.Store(0)
 		if caseStalled.Swap(false) {
 			addCounter("stalled_cases_set_aside", 1) // neither judged nor counted as a case
 			return
 		}
 		if len(res.Violations) > 0 {
 			path := p.writeReplay(s, res)
+			failSeen.Store(true)
 			fmt.Printf("VERIF-FAIL property=%s test=%s replay=%s :: %s\n", p.Property, p.Name, path, firstLine(res.Violations[0]))
 			rt.Fatalf("property %s violated (%s):\n  %s\nscript: %s", p.Property, p.Name, strings.Join(res.Violations, "\n  "), mustJSON(s))
 		}
@@ -185,6 +188,7 @@ func (p *Prop[S]) RunOne(t *testing.T, s S) bool {
 	res := p.Run(s)
 	if len(res.Violations) > 0 {
 		path := p.writeReplay(s, res)
+		failSeen.Store(true)
 		fmt.Printf("VERIF-FAIL property=%s test=%s replay=%s :: %s\n", p.Property, p.Name, path, firstLine(res.Violations[0]))
 		t.Errorf("property %s violated (%s):\n  %s\nscript: %s", p.Property, p.Name, strings.Join(res.Violations, "\n  "), mustJSON(s))
 		return false
@@ -225,6 +229,7 @@ func Replay(t *testing.T) {
 		t.Fatal(err)
 	}
 	if len(res.Violations) > 0 {
+		failSeen.Store(true)
 		fmt.Printf("VERIF-FAIL property=%s test=%s replay=%s :: %s\n", rf.Property, rf.Test, path, firstLine(res.Violations[0]))
 		t.Fatalf("replay %s: violated:\n  %s", path, strings.Join(res.Violations, "\n  "))
 	}
@@ -245,6 +250,7 @@ func Regress(t *testing.T, prop string) {
 		}
 		addCounter("regress_files", 1)
 		if len(res.Violations) > 0 {
+			failSeen.Store(true)
 			fmt.Printf("VERIF-FAIL property=%s test=%s replay=%s :: %s\n", rf.Property, rf.Test, f, firstLine(res.Violations[0]))
 			t.Errorf("regression %s: violated:\n  %s", f, strings.Join(res.Violations, "\n  "))
 		}
@@ -400,6 +406,35 @@ func record(name string, script any, res Result) {
 // Main is every package's TestMain body.
 func Main(m *testing.M) {
 	flag.Parse()
+	// The time budget (-test.timeout) is not a verdict. rapid stops generating when the deadline is near, judging
+	// by the average case so far; on a machine whose load changes a late case can still overrun it, and the
+	// testing package would then panic with nothing recorded. Shortly before that the run is ended here: what
+	// was explored is flushed and the process exits with status 4, which the driver reads as "held on everything explored" - unless the case in
+	// progress has been running for more than a minute, which is a hang, not an exhausted budget (exit 3).
+	if f := flag.Lookup("test.timeout"); f != nil {
+		if d, err := time.ParseDuration(f.Value.String()); err == nil && d > 2*time.Minute {
+			time.AfterFunc(d-25*time.Second, func() {
+				if st := caseStarted.Load(); st != 0 && time.Since(time.Unix(0, st)) > time.Minute {
+					buf := make([]byte, 8<<20)
+					k := runtime.Stack(buf, true)
+					fmt.Printf("VERIF-WATCHDOG the time budget ended while one case had been running for %v\n%s\n", time.Since(time.Unix(0, st)).Round(time.Second), buf[:k])
+					flushStats()
+					os.Exit(3)
+				}
+				if failSeen.Load() {
+					flushStats()
+					os.Exit(1) // a violation was reported and was still being shrunk
+				}
+				addCounter("runs_cut_short_by_the_time_budget", 1)
+				fmt.Printf("VERIF-CUTSHORT the time budget (%v) ended before the requested number of cases; what was explored is reported\n", d)
+				flushStats()
+				if stalledCases.Load() > 0 {
+					os.Exit(3)
+				}
+				os.Exit(4) // (the testing package refuses os.Exit(0) during a test) the driver reads 4 as "held on everything explored"
+			})
+		}
+	}
 	code := m.Run()
 	flushStats()
 	if n := stalledCases.Load(); n > 0 && code == 0 {
@@ -496,6 +531,8 @@ var (
 	tolerateStalls atomic.Bool  // Prop.Check is driving: a stalled case is set aside, the search goes on
 	stalledCases   atomic.Int64 // cases set aside so far in this process
 	caseStalled    atomic.Bool  // the case in progress was set aside: its result means nothing
+	failSeen       atomic.Bool  // a VERIF-FAIL line was printed by this process
+	caseStarted    atomic.Int64 // wall-clock start (unix ns) of the case in progress under Prop.Check, 0 between cases
 )
 
 const (
